@@ -238,11 +238,13 @@ def neg(op, input, *args, **kwargs):
 @register_qbytestensor_op(
     [
         torch.ops.aten.alias,
+        torch.ops.aten.diagonal,
         torch.ops.aten.expand,
         torch.ops.aten.permute,
         torch.ops.aten.select,
         torch.ops.aten.slice,
         torch.ops.aten.squeeze,
+        torch.ops.aten.unfold,
         torch.ops.aten.unsqueeze,
     ]
 )
@@ -368,7 +370,7 @@ def stack(op, inputs, dim=0):
     return qfallback(op, inputs, dim)
 
 
-@register_qbytestensor_op([torch.ops.aten.split])
+@register_qbytestensor_op([torch.ops.aten.split, torch.ops.aten.split_with_sizes, torch.ops.aten.unbind])
 def split(op, input, *args, **kwargs):
     if input.axis is not None:
         return qfallback(op, input, *args, **kwargs)
